@@ -1,5 +1,10 @@
 import TantivyModel.Proofs.Reader
 import TantivyModel.Proofs.ReaderSeq
+import TantivyModel.Proofs.ReaderPub
+import TantivyModel.Proofs.Generations
+import TantivyModel.Proofs.ReaderProgress
+import TantivyModel.Proofs.ReaderMutex
+import TantivyModel.Proofs.ReaderFresh
 /-!
 # C05 — Searchers are immutable snapshots; readers only ever see whole commits
 
@@ -104,6 +109,10 @@ theorem C05_published_handles_fixed (d : Disc) (s : St) (e : Ev) (r : Rid)
       simp only [ok] at hok
       split at hok <;> simp [hp] at hok
     simp [step, searcherOf, upd, hne, hp]
+  | warm r' =>
+    by_cases hne : r = r'
+    · subst hne; simp [step, searcherOf, upd, hp]
+    · simp [step, searcherOf, upd, hne, hp]
   | publish r' =>
     have hne : r ≠ r' := by
       intro h; subst h
@@ -116,6 +125,8 @@ theorem C05_published_handles_fixed (d : Disc) (s : St) (e : Ev) (r : Rid)
   | gcList l => simp [step, searcherOf, hp]
   | gcRelease => simp [step, searcherOf, hp]
   | gcDelete p => simp [step, searcherOf, hp]
+  | mLock r' => simp [step, searcherOf, hp]
+  | mUnlock r' => simp [step, searcherOf, hp]
 
 /-- the excluded design: a component resolved by path at observation time is *not* a snapshot —
 a later GC delete changes what it returns -/
@@ -219,5 +230,263 @@ example : ok full (run init [.create 1 10, .saveMeta [1], .acquire (0, 0), .load
     (.openFile (0, 0) 1) = true := by decide
 
 example : observe init (fun l => l.length) [⟨1, 10⟩, ⟨2, 20⟩] = 2 := by decide
+
+/-! ### publication as an atomic register (`ArcSwap`), warming, generations -/
+
+/-- `ArcSwap::store`: from the moment reload `r` publishes, `searcher()` of its reader returns
+`r`'s searcher (commit `j`) … -/
+theorem C05_searcher_serves_last_publication (s : St) (r : Rid) (j : Nat)
+    (hj : (s.rs r).j = some j) :
+    served r.1 (step s (.publish r)) = some j ∧ servedReload r.1 (step s (.publish r)) = some r :=
+  served_step_publish s r j hj
+
+/-- … and no event other than a publication of the same reader changes what `searcher()` returns:
+the register has no other writer (commits, merges, GC, other readers, a reload in progress) -/
+theorem C05_served_unchanged_by_other_events (ρ : Nat) (s : St) (e : Ev)
+    (h : ∀ r, e = .publish r → r.1 ≠ ρ) : served ρ (step s e) = served ρ s := by
+  unfold served; rw [served_step_other ρ s e h]
+
+/-- Linearisable, monotone reads: with the reloads of reader `ρ` serialised (the reload mutex),
+whatever `searcher()` returned at some point of a disciplined history, every later `searcher()`
+returns a commit at least as new — the reader never moves back. -/
+theorem C05_served_commit_monotone (ρ : Nat) (t u : List Ev) (hv : valid full (t ++ u) = true)
+    (hs : sequential ρ (t ++ u) = true) (a b : Nat) (ha : served ρ (run init t) = some a)
+    (hb : served ρ (run init (t ++ u)) = some b) : a ≤ b := by
+  have hsorted := C05_sequential_reloads_monotone ρ (t ++ u) hv hs
+  obtain ⟨ext, he⟩ := pubs_run_prefix (run init t) u
+  rw [← run_append] at he
+  have hsplit := pubsOf_of_pubs_append ρ (run init t) (run init (t ++ u)) ext he
+  unfold served at ha hb
+  rw [hsplit] at hsorted hb
+  exact getLast_le_of_pairwise _ _ hsorted a b ha hb
+
+/-- what `searcher()` returns is a whole commit: the served reload's handles are exactly the
+files of one meta, all opened successfully -/
+theorem C05_served_is_whole_commit (ρ : Nat) (t : List Ev) (hv : valid full t = true) (r : Rid)
+    (hr : servedReload ρ (run init t) = some r) :
+    ∃ j, ((run init t).rs r).j = some j ∧
+      ∀ p, p ∈ (searcherOf (run init t) r).map (·.path) ↔ p ∈ metaFiles (run init t) j := by
+  have hm := List.mem_of_getLast? hr
+  simp only [List.mem_map, List.mem_filter] at hm
+  obtain ⟨⟨r', j⟩, ⟨hmem, _⟩, hrr⟩ := hm
+  simp only at hrr
+  subst hrr
+  exact ⟨j, (C05_reload_whole_commit t hv).2 r' j hmem⟩
+
+/-- warming precedes publication: if reader `ρ` stores only searchers returned by
+`create_searcher` (which runs every warmer and propagates their errors before returning), every
+searcher `ρ` ever published had been warmed -/
+theorem C05_published_searcher_warmed (ρ : Nat) (t : List Ev) (hv : valid full t = true)
+    (hw : warmedBeforePublish ρ t = true) (r : Rid) (j : Nat)
+    (hm : (r, j) ∈ (run init t).pubs) (hr : r.1 = ρ) : ((run init t).rs r).warmed = true :=
+  warm_run ρ init t inv_init (warmInv_init ρ) hv hw r j hm hr
+
+/-- the source has that order: track in the inventory, build, `warm_new_searcher_generation(..)?`,
+`Ok(searcher)`; `reload` stores what `create_searcher` returned; the id is recorded before the
+warmers run -/
+theorem C05_warming_order_in_source :
+    Gen.WARM_AFTER_TRACK_BEFORE_RETURN = 1 ∧ Gen.RELOAD_PUBLISHES_CREATED_SEARCHER = 1 ∧
+    Gen.WARM_RECORDS_ID_BEFORE_WARMERS = 1 := by decide
+
+/-- Inventory of live generations: a generation that was warmed and of which some searcher is
+still alive (in flight, in the ArcSwap slot or held by a client) keeps its warmer artifact, for
+every history of reloads, `searcher()` calls, drops and warmer GCs -/
+theorem C05_live_generation_keeps_its_artifacts (t : List Gens.GEv) (hv : Gens.gvalid t = true)
+    (g : Nat) (hw : g ∈ (Gens.grun Gens.ginit t).everWarmed)
+    (hl : Gens.live (Gens.grun Gens.ginit t) g = true) :
+    g ∈ (Gens.grun Gens.ginit t).artifacts :=
+  (Gens.ginv_run Gens.ginit t Gens.ginv_init hv).kept g hw hl
+
+/-- the list the next `Warmer::garbage_collect` receives contains every live generation -/
+theorem C05_warmer_gc_list_has_every_live_generation (t : List Gens.GEv)
+    (hv : Gens.gvalid t = true) (g : Nat) (hl : Gens.live (Gens.grun Gens.ginit t) g = true) :
+    g ∈ Gens.liveList (Gens.grun Gens.ginit t) :=
+  Gens.mem_liveList _ g ((Gens.ginv_run Gens.ginit t Gens.ginv_init hv).bound g hl) hl
+
+/-- generation ids are drawn in increasing order without repetition -/
+theorem C05_generation_ids_increasing (t : List Gens.GEv) (hv : Gens.gvalid t = true) :
+    (Gens.grun Gens.ginit t).drawn = (List.range (Gens.grun Gens.ginit t).counter).reverse ∧
+    (Gens.grun Gens.ginit t).drawn.Nodup := by
+  have h := (Gens.ginv_run Gens.ginit t Gens.ginv_init hv).drawn
+  refine ⟨h, ?_⟩
+  rw [h]
+  unfold List.Nodup
+  rw [List.pairwise_reverse]
+  exact (List.nodup_range (n := (Gens.grun Gens.ginit t).counter)).imp (fun h => Ne.symm h)
+
+/-- the source has the shape the generation model assumes: the tracked object is owned by the
+shared inner searcher, and the only `Warmer::garbage_collect` call gets `inventory.list()` -/
+theorem C05_generation_bookkeeping_in_source :
+    Gen.GENERATION_TRACKED_IN_SEARCHER_INNER = 1 ∧ Gen.WARMER_GC_GETS_INVENTORY_LIST = 1 := by
+  decide
+
+/-- Progress: in every disciplined history, a reload that has loaded meta_j and holds META_LOCK
+can run to publication — opening each remaining file of meta_j (all present, whatever the writer
+and GC have done meanwhile), releasing the lock, warming, publishing — without leaving the
+discipline: a reload never *needs* to fail or to wait for the writer. -/
+theorem C05_reload_can_always_complete (t : List Ev) (hv : valid full t = true) (r : Rid) (j : Nat)
+    (hl : (run init t).lock = some (.reader r)) (hp : ((run init t).rs r).phase = .loaded)
+    (hj : ((run init t).rs r).j = some j) :
+    valid full (t ++ finish (run init t) r j) = true ∧
+    (r, j) ∈ (run init (t ++ finish (run init t) r j)).pubs := by
+  have hI := inv_run init t inv_init hv
+  obtain ⟨h1, h2⟩ := finish_valid (run init t) r j ⟨hI, hl, hp, hj⟩
+  refine ⟨?_, ?_⟩
+  · show validFrom full init (t ++ _) = true
+    rw [validFrom_append]
+    have hv' : validFrom full init t = true := hv
+    rw [hv', h1]; rfl
+  · rw [run_append]; exact h2
+
+/-- The hypothesis `sequential ρ` is not needed as such: it follows from the mutual exclusion of
+the reader's reload mutex and the *local* shape of `reload()` (take the guard, load, publish,
+drop the guard) — the shape `C05_reloads_of_one_reader_serialised` reads off the source. -/
+theorem C05_mutex_gives_sequential (ρ : Nat) (t : List Ev) (hv : valid full t = true)
+    (hm : mutexDisciplined ρ t = true) : sequential ρ t = true :=
+  sequential_of_mutex ρ t hv hm
+
+/-- reloads under the reload mutex publish non-decreasing commits (no global hypothesis) -/
+theorem C05_reloads_monotone_under_mutex (ρ : Nat) (t : List Ev) (hv : valid full t = true)
+    (hm : mutexDisciplined ρ t = true) : List.Pairwise (· ≤ ·) (pubsOf ρ (run init t)) :=
+  C05_sequential_reloads_monotone ρ t hv (sequential_of_mutex ρ t hv hm)
+
+/-- … and `searcher()` never moves back -/
+theorem C05_served_commit_monotone_under_mutex (ρ : Nat) (t u : List Ev)
+    (hv : valid full (t ++ u) = true) (hm : mutexDisciplined ρ (t ++ u) = true) (a b : Nat)
+    (ha : served ρ (run init t) = some a) (hb : served ρ (run init (t ++ u)) = some b) : a ≤ b :=
+  C05_served_commit_monotone ρ t u hv (sequential_of_mutex ρ (t ++ u) hv hm) a b ha hb
+
+/-- Freshness: a reload reflects every commit that was complete before it started — if meta_k
+was the newest meta when reload `r` took META_LOCK, whatever `r` publishes is meta_j with
+`k ≤ j` (together with `C05_served_commit_monotone_under_mutex`: once such a reload has
+returned, `searcher()` never again shows less than commit `k`). -/
+theorem C05_reload_reflects_commits_before_it_started (t1 t2 : List Ev) (r : Rid) (j : Nat)
+    (hv : valid full (t1 ++ .acquire r :: t2) = true)
+    (hp : (r, j) ∈ (run init (t1 ++ .acquire r :: t2)).pubs) :
+    (run init t1).metas.length - 1 ≤ j := by
+  have hv' : validFrom full init (t1 ++ .acquire r :: t2) = true := hv
+  rw [validFrom_append] at hv'
+  simp only [Bool.and_eq_true] at hv'
+  obtain ⟨hv1, hv2⟩ := hv'
+  have hI1 := inv_run init t1 inv_init hv1
+  have hv2' : ok full (run init t1) (.acquire r) = true ∧
+      validFrom full (step (run init t1) (.acquire r)) t2 = true := by
+    simpa [validFrom, check, Bool.and_eq_true] using hv2
+  have hF := fresh_run r _ _ t2 (fresh_after_acquire (run init t1) r hI1) hv2'.2
+  have hrun : run init (t1 ++ .acquire r :: t2) = run (step (run init t1) (.acquire r)) t2 := by
+    rw [run_append]; rfl
+  have hI := inv_run init _ inv_init hv
+  rw [hrun] at hp hI
+  exact hF.loaded j (hI.pubOk r j hp).2.1
+
+/-- The user-level statement (the oracle of the overlap explorer, as a theorem): under the reload
+mutex, once a reload of reader `ρ` that started when meta_k was the newest has published, what
+`searcher()` returns at the end of any continuation of the history — however many commits,
+merges, GCs and further reloads of `ρ` and of other readers it contains — is a commit `≥ k`. -/
+theorem C05_searcher_reflects_commits_before_a_returned_reload (ρ : Nat) (t1 t2 : List Ev)
+    (r : Rid) (j b : Nat) (hr : r.1 = ρ) (hv : valid full (t1 ++ .acquire r :: t2) = true)
+    (hm : mutexDisciplined ρ (t1 ++ .acquire r :: t2) = true)
+    (hp : (r, j) ∈ (run init (t1 ++ .acquire r :: t2)).pubs)
+    (hb : served ρ (run init (t1 ++ .acquire r :: t2)) = some b) :
+    (run init t1).metas.length - 1 ≤ b := by
+  have h1 := C05_reload_reflects_commits_before_it_started t1 t2 r j hv hp
+  have hs := C05_reloads_monotone_under_mutex ρ _ hv hm
+  have h2 := le_getLast_of_pairwise _ hs j b (mem_pubsOf_of_mem ρ _ r j hp hr) hb
+  omega
+
+/-- "for as long as it is held": the handles of a published reload are the same after any
+further history (any discipline; commits, merges, GC deletes, other reloads, writer drop) -/
+theorem C05_held_searcher_fixed_forever (d : Disc) (s : St) (u : List Ev) (r : Rid)
+    (hp : (s.rs r).phase = .published) (hv : validFrom d s u = true) :
+    searcherOf (run s u) r = searcherOf s r :=
+  (held_fixed_run d s u r (fun s e hp hok => C05_published_handles_fixed d s e r hp hok) hp hv).1
+
+/-! ### the main theorems with the discipline read off the source instead of assumed -/
+
+theorem C05_reload_whole_commit_of_source (t : List Ev) (hv : valid codeDisc t = true) :
+    (run init t).badOpens = [] ∧
+    ∀ r j, (r, j) ∈ (run init t).pubs →
+      ((run init t).rs r).j = some j ∧
+      ∀ p, p ∈ (searcherOf (run init t) r).map (·.path) ↔ p ∈ metaFiles (run init t) j := by
+  rw [C05_code_follows_discipline] at hv
+  exact C05_reload_whole_commit t hv
+
+theorem C05_no_uncommitted_of_source (t : List Ev) (hv : valid codeDisc t = true) (r : Rid)
+    (h : Handle) (hh : h ∈ searcherOf (run init t) r) : ¬ uncommitted (run init t) h.path := by
+  rw [C05_code_follows_discipline] at hv
+  exact (C05_no_uncommitted t hv r h hh).2
+
+theorem C05_served_commit_monotone_of_source (ρ : Nat) (t u : List Ev)
+    (hv : valid codeDisc (t ++ u) = true) (hs : sequential ρ (t ++ u) = true) (a b : Nat)
+    (ha : served ρ (run init t) = some a) (hb : served ρ (run init (t ++ u)) = some b) : a ≤ b := by
+  rw [C05_code_follows_discipline] at hv
+  exact C05_served_commit_monotone ρ t u hv hs a b ha hb
+
+/-! non-vacuity of the new statements -/
+
+example :
+    let t : List Ev :=
+      [.create 1 10, .saveMeta [1], .acquire (3, 0), .loadMeta (3, 0), .openFile (3, 0) 1,
+       .release (3, 0), .warm (3, 0), .publish (3, 0)]
+    let u : List Ev :=
+      [.create 2 20, .saveMeta [1, 2], .acquire (3, 1), .loadMeta (3, 1), .openFile (3, 1) 2,
+       .openFile (3, 1) 1, .release (3, 1), .warm (3, 1), .publish (3, 1)]
+    valid full (t ++ u) = true ∧ sequential 3 (t ++ u) = true ∧
+      warmedBeforePublish 3 (t ++ u) = true ∧ served 3 (run init t) = some 1 ∧
+      served 3 (run init (t ++ u)) = some 2 ∧ servedReload 3 (run init (t ++ u)) = some (3, 1) := by
+  decide
+
+/-- a reload pre-empted after its first open while a merge is published: what is left to do -/
+example :
+    let t : List Ev :=
+      [.create 1 10, .create 2 11, .saveMeta [1, 2], .acquire (7, 0), .loadMeta (7, 0),
+       .openFile (7, 0) 1, .create 3 30, .saveMeta [3]]
+    valid full t = true ∧ (run init t).lock = some (.reader (7, 0)) ∧
+      finish (run init t) (7, 0) 1 =
+        [.openFile (7, 0) 2, .release (7, 0), .warm (7, 0), .publish (7, 0)] := by
+  decide
+
+/-- two reloads of reader 3 under its mutex, racing a writer; and the overlapping schedule of
+`C05_concurrent_reloads_counterexample` cannot be completed with mutex events: the second
+`mLock` is refused while the first reload holds the mutex -/
+example :
+    let t : List Ev :=
+      [.create 1 10, .saveMeta [1], .mLock (3, 0), .acquire (3, 0), .loadMeta (3, 0),
+       .openFile (3, 0) 1, .release (3, 0), .create 2 20, .saveMeta [1, 2], .warm (3, 0),
+       .publish (3, 0), .mUnlock (3, 0),
+       .mLock (3, 1), .acquire (3, 1), .loadMeta (3, 1), .openFile (3, 1) 2, .openFile (3, 1) 1,
+       .release (3, 1), .warm (3, 1), .publish (3, 1), .mUnlock (3, 1)]
+    valid full t = true ∧ mutexDisciplined 3 t = true ∧ pubsOf 3 (run init t) = [1, 2] ∧
+    mutexDisciplined 0 [.create 1 10, .saveMeta [1], .mLock (0, 0), .acquire (0, 0),
+      .loadMeta (0, 0), .openFile (0, 0) 1, .release (0, 0), .create 2 20, .saveMeta [1, 2],
+      .mLock (0, 1), .acquire (0, 1)] = false := by
+  decide
+
+/-- a searcher published on meta_1 and held while its files are merged away and deleted -/
+example :
+    let t : List Ev :=
+      [.create 1 10, .saveMeta [1], .acquire (0, 0), .loadMeta (0, 0), .openFile (0, 0) 1,
+       .release (0, 0), .warm (0, 0), .publish (0, 0)]
+    let u : List Ev :=
+      [.create 2 20, .saveMeta [2], .gcAcquire, .gcList [2], .gcRelease, .gcDelete 1]
+    ((run init t).rs (0, 0)).phase = .published ∧ validFrom full (run init t) u = true ∧
+      (run (run init t) u).deleted = [1] ∧ searcherOf (run (run init t) u) (0, 0) = [⟨1, 10⟩] := by
+  decide
+
+/-- a publication without warming is what `warmedBeforePublish` excludes -/
+example : warmedBeforePublish 3 [.create 1 10, .saveMeta [1], .acquire (3, 0), .loadMeta (3, 0),
+    .openFile (3, 0) 1, .release (3, 0), .publish (3, 0)] = false := by decide
+
+example :
+    let t : List Gens.GEv :=
+      [.track, .warm 0, .store 0, .take, .track, .warm 1, .store 1, .warmGc, .drop 0, .warmGc]
+    Gens.gvalid t = true ∧ (Gens.grun Gens.ginit t).gcCalls = [[1]] ∧
+      (Gens.grun Gens.ginit t).artifacts = [1] ∧ Gens.live (Gens.grun Gens.ginit t) 1 = true ∧
+      Gens.live (Gens.grun Gens.ginit t) 0 = false := by
+  decide
+
+/-- while the client still holds generation 0 the warmers are not even asked -/
+example : (Gens.grun Gens.ginit [.track, .warm 0, .store 0, .take, .track, .warm 1, .store 1,
+    .warmGc]).artifacts = [1, 0] := by decide
 
 end TantivyModel.C05
